@@ -127,6 +127,19 @@ func TestC10(t *testing.T) {
 		}
 		synctest.Test(t, func(t *testing.T) { c10Run(t, run, sc, run.Rand(i+1<<30)) })
 	}
+	if os.Getenv("VERIF_C10_ONLY_KIND") != "" {
+		return
+	}
+	// a split set or stopped while another command is writing its snapshot survives a restart like
+	// any other (the overlap scenarios of C12: the snapshot steps of two commands interleaved, then
+	// a proxy restored from the file is compared with the live one, rollout cookies included)
+	for k := 0; k < run.N(16, 400); k++ {
+		sc := c12Gen(run.Rand(n+k), 4*k+3, 1<<30, 0, 0)
+		if !run.Mine(n+k, sc) {
+			continue
+		}
+		synctest.Test(t, func(t *testing.T) { c12Sim(t, run, sc) })
+	}
 }
 
 func c10Run(t *testing.T, run *Run, sc c10Scenario, rng *rand.Rand) {
